@@ -316,9 +316,7 @@ func checkC14(p *Prog, c *Check) {
 				var desc []string
 				for v := range pv {
 					desc = append(desc, v.String())
-					if v.Kind != PFresh {
-						ok2 = false
-					} else if ms, isMS := v.V.(*ssa.MakeSlice); !isMS || ms.Parent() != fn {
+					if v.Kind != PFresh || !freshMakeOf(e, v.V, fn, 0) {
 						ok2 = false
 					}
 				}
@@ -332,4 +330,17 @@ func checkC14(p *Prog, c *Check) {
 		}
 	}
 	c.Floor("packet decode call sites on ReadPacket's tree", n, 1, "ReadPacket must hand the frame to the packet's UnmarshalBinary")
+}
+
+// freshMakeOf: v is a make([]T, n) executed in fn or in an mq function that fn (transitively) calls: the
+// provenance analysis reports an allocation made during the call tree of this invocation, i.e. a buffer per call.
+func freshMakeOf(e *Effects, v ssa.Value, fn *ssa.Function, depth int) bool {
+	ms, ok := v.(*ssa.MakeSlice)
+	if !ok {
+		return false
+	}
+	if ms.Parent() == fn {
+		return true
+	}
+	return e.p.Reach([]*ssa.Function{fn})[ms.Parent()]
 }
